@@ -115,14 +115,21 @@ def run_unit(name, rlimit=None, extra_args=(), seed=None, keep=True):
             if fn is not None and not fn['stub']:
                 owner = fn; break
         primary = origins[0][0] if origins else '?'
-        if 'canary' in d['text'] and 'fn verif_canary' in d['text']:
+        if 'fn verif_canary' in d['text']:
             canary_failed = True; continue
         name_ = '%s/%s/%s@%s' % (name, owner['name'] if owner else 'spec', kind, primary)
         res['failures'].append({'obligation': name_, 'class': cls, 'kind': kind, 'function': owner['name'] if owner else None,
                                 'fn_path': owner['path'] if owner else None, 'msg': d['msg'], 'text': d['text'][:3000],
                                 'origins': [o for o, _ in origins]})
     res['canary_failed'] = canary_failed
-    if vr.get('encountered-vir-error') or (p.returncode != 0 and not diags):
+    res['has_canary'] = u.has_canary
+    if u.has_canary:
+        # the canary is counted by verus as one error; remove it from the totals
+        res['errors'] = max(0, res['errors'] - (1 if canary_failed else 0))
+        res['functions'] = [f for f in res['functions'] if not f['function'].endswith('::verif_canary')]
+    if u.has_canary and not canary_failed and not vr.get('encountered-vir-error') and not any(f['class'] == 'other' for f in res['failures']):
+        res['status'] = 'vacuous'; res['reason'] = 'canary `ensures false` was PROVED: environment inconsistent'
+    elif vr.get('encountered-vir-error') or (p.returncode != 0 and not diags):
         res['status'] = 'tool-error'; res['reason'] = p.stderr[-3000:]
     elif any(f['class'] == 'other' for f in res['failures']):
         res['status'] = 'tool-error'; res['reason'] = '\n'.join(f['text'] for f in res['failures'] if f['class'] == 'other')[:4000]
